@@ -106,6 +106,8 @@ def cases(tier, seed):
         out.append(dict(id='inter-%d' % rep, kind='inter', seed=seed * 331 + rep, count=12 if thorough else 6))
     for rep in range(40 if thorough else 6):
         out.append(dict(id='real-%d' % rep, kind='real', seed=seed * 457 + rep, count=6))
+    for rep in range(12 if thorough else 2):
+        out.append(dict(id='many-%d' % rep, kind='many', seed=seed * 523 + rep, count=2))
     return out
 
 
@@ -267,6 +269,19 @@ def run_case(case):
             rng.shuffle(arrivals)
             obs['interleaved_histories'] += 1
             play(arrivals, originals, 'interleaved')
+    elif kind == 'many':
+        # many bundles in reassembly at the same time: all first halves, then all second halves (or one straggler at the very end)
+        for _ in range(case['count']):
+            nbundles = rng.choice([17, 20, 33, 70])
+            keys = _bundle_set(rng, nbundles)
+            originals, arrivals = _make_arrivals(rng, keys, ['uniform'])
+            firsts = [arr for arr in arrivals if arr[1] == 0]
+            rest = [arr for arr in arrivals if arr[1] != 0]
+            if rng.random() < 0.5:
+                rng.shuffle(rest)
+            obs['interleaved_histories'] += 1
+            obs['many_pending_histories'] = obs.get('many_pending_histories', 0) + 1
+            play(firsts + rest, originals, 'many-pending')
     elif kind == 'real':
         from vf.props import c05
         for _ in range(case['count']):
